@@ -261,6 +261,26 @@ func runC02(c *mon.Ctx) {
 		if r.Chance(0.5) {
 			obj.Set("unsigned", gen.RandValue(r, gen.JSONOpts{Depth: 2, Width: 3}))
 		}
+		// members that merely resemble the two special ones (other case, a letter that case-folds to ASCII) are ordinary
+		// signed members
+		if r.Chance(0.2) {
+			for i := r.Range(1, 2); i > 0; i-- {
+				k := gen.Pick(r, append(gen.FoldVariants("unsigned"), gen.FoldVariants("signatures")...))
+				obj.Set(k, gen.RandValue(r, gen.JSONOpts{Depth: 2, Width: 2}))
+			}
+		}
+		// entries under signatures that other entities put there and that are not decodable signatures: none of the
+		// signer's business
+		var foreign *ref.Value
+		if r.Chance(0.15) {
+			sigs := obj.Get("signatures")
+			if sigs == nil {
+				sigs = ref.O()
+				obj.Set("signatures", sigs)
+			}
+			foreign = gen.Pick(r, []*ref.Value{ref.O("ed25519:1", ref.S("c2ln==")), ref.O("ed25519:1", ref.S("not base64!")), ref.O("ed25519:1", ref.I(123)), ref.O("rsa:1", ref.O()), ref.O()})
+			sigs.Set("foreign.example", foreign)
+		}
 		nsign := r.Range(1, 3)
 		signers := make([]signer, nsign)
 		for i := range signers {
@@ -301,6 +321,15 @@ func runC02(c *mon.Ctx) {
 					}
 					if got := sigOf(sv, nk[0], nk[1]); string(got) != string(b) {
 						c.Failf("sign:earlier-signature-lost", "signature of %q/%q lost or altered after signing as %q/%q: out %q", nk[0], nk[1], s.name, s.kid, out)
+					}
+				}
+				if foreign != nil {
+					if got := sv.Get("signatures").Get("foreign.example"); got == nil || !ref.Equal(got, foreign) {
+						c.Failf("sign:foreign-entry-altered", "the signatures entry of another entity was changed by signing: in %q out %q", text, out)
+					}
+					if err := gmsl.VerifyJSON(s.name, s.kid, s.pub, out); err != nil {
+						c.Failf("verify:fails-because-of-foreign-entry", "VerifyJSON(%q,%q) fails because of another entity's undecodable entry %s: %v", s.name, s.kid, gen.Plain().Bytes(foreign), err)
+						return
 					}
 				}
 				if err := gmsl.VerifyJSON(s.name, s.kid, s.pub, out); err != nil {
